@@ -675,7 +675,12 @@ impl fmt::Display for XmlAttribute {
             value.push_str(&format!("{}", v));
         }
 
-        write!(f, "{}={}", self.local_name.as_str(), escape(value.as_str()))
+        write!(
+            f,
+            "{}={}",
+            self.local_name.as_str(),
+            quote_att_value(value.as_str())
+        )
     }
 }
 
@@ -4609,6 +4614,17 @@ fn escape(value: &str) -> String {
         format!("'{}'", value)
     } else {
         format!("\"{}\"", value)
+    }
+}
+
+/// Quotes an attribute value for printing.  A value that contains both quotation marks
+/// (it can be assembled from child nodes or by editing a Text of the value) cannot be
+/// delimited by either: the double ones are written as references.
+fn quote_att_value(value: &str) -> String {
+    if value.contains('"') && value.contains('\'') {
+        format!("\"{}\"", value.replace('"', "&quot;"))
+    } else {
+        escape(value)
     }
 }
 
